@@ -528,14 +528,15 @@ Definition m_enumerate (a : val) : res :=
   end.
 
 (* a[::-1] — or, when the guard of the fix: commit is present, atoms are returned unchanged *)
-Definition m_reverse (a : val) : res :=
+Definition m_reverse_gen (guards_atoms : bool) (a : val) : res :=
   match a with
   | VL l => Ok (VL (rev l))
   | VS s => Ok (VS (rev s))
-  | VC c => if reverse_guards_atoms then Ok a else Ok (VS [c])
-  | VY s => if reverse_guards_atoms then Ok a else Ok (VS (rev s))
-  | _ => if reverse_guards_atoms then Ok a else Err
+  | VC c => if guards_atoms then Ok a else Ok (VS [c])
+  | VY s => if guards_atoms then Ok a else Ok (VS (rev s))
+  | _ => if guards_atoms then Ok a else Err
   end.
+Definition m_reverse := m_reverse_gen reverse_guards_atoms.
 
 (* np.repeat(np.arange(len(arr)), arr) *)
 Fixpoint expand_from (i : nat) (l : list val) : result (list val) :=
@@ -609,16 +610,16 @@ Definition roll (n : Z) (l : list val) : list val :=
          skipn m l ++ firstn m l
   end.
 
-(* eval_dyad_rotate; np.roll without axis rolls the FLATTENED array and restores the shape
+(* eval_dyad_rotate (m_rotate below); np.roll without axis rolls the FLATTENED array and restores the shape
    (rotate_uses_axis0: the fix: commit passes axis=0) *)
-Definition m_rotate (a b : val) : res :=
+Definition m_rotate_gen (uses_axis0 : bool) (a b : val) : res :=
   match a with
   | VI n =>
       if n =? 0 then Ok b else
       match b with
       | VS s => joined (roll n (chars s))
       | VL l =>
-          if rotate_uses_axis0 then Ok (VL (roll n l)) else
+          if uses_axis0 then Ok (VL (roll n l)) else
           match rshape b with
           | Some sh => Ok (build sh (roll n (np_flat b)))
           | None => Ok (VL (roll n l))
@@ -627,6 +628,8 @@ Definition m_rotate (a b : val) : res :=
       end
   | _ => Unmod
   end.
+
+Definition m_rotate := m_rotate_gen rotate_uses_axis0.
 
 Fixpoint cut_sizes (sizes : list nat) (l : list val) : list (list val) :=
   match sizes with
